@@ -606,6 +606,26 @@ func inboundCase(rt *rapid.T, prop string, f inboundFlags) {
 		h.label("disconnect-while-the-application-holds-a-message")
 		h.finishCase = true
 	}
+	// Another ending in five (C07): the last message carries wildcard characters
+	// in its topic name, which no conforming broker sends. Handed out or
+	// refused with a reset: either way no acknowledgement without the return.
+	if f.c07 && !h.finishCase && h.Current() != nil && h.Current().Accepted() && rapid.IntRange(0, 4).Draw(rt, "wildcardTopicNameLast") == 0 {
+		qos := byte(rapid.IntRange(1, 2).Draw(rt, "wildcardLevel"))
+		h.forceTopic = fmt.Sprintf("in%d/%s", h.nTopic+1, rapid.SampledFrom([]string{"+", "#", "a+b", "+/x/#"}).Draw(rt, "wildcardTopic"))
+		if m := h.brokerSendBase(qos, rapid.IntRange(0, 20).Draw(rt, "wildcardLen"), 0); m != nil {
+			for i := 0; i < 4; i++ {
+				h.App.Step()
+				h.MustPoll("read routine at rest", func() bool { return h.ReaderWaiting() || !h.App.InCall() })
+				if h.ReaderWaiting() {
+					break
+				}
+			}
+			check(false)
+			h.label("topic-name-with-wildcard-characters")
+			h.finishCase = true
+		}
+		h.forceTopic = ""
+	}
 	if h.finishCase {
 		h.finish(true)
 		return
@@ -667,6 +687,9 @@ func (h *H) brokerSendBase(qos byte, payloadLen int, base uint16) *refmqtt.OutMs
 	}
 	h.nTopic++
 	topic := fmt.Sprintf("in%d", h.nTopic)
+	if h.forceTopic != "" {
+		topic = h.forceTopic
+	}
 	payload := make([]byte, payloadLen)
 	for i := range payload {
 		payload[i] = byte(h.nTopic) ^ byte(i*13)
